@@ -234,6 +234,9 @@ def run(spec):
             if not (e <= XT) and rs.result.nit == want.result.nit and rec["snap"]["sk"] is not None and rec["snap"]["sk"].shape[0] > P.n:
                 out.count("skipped_rank_deficient_memory")  # more pairs than variables: singular compact system amplifies restoration rounding
                 continue
+            if not (e <= XT) and rs.result.nit == want.result.nit and probes.grazes_bound(st.x, P.lb, P.ub):
+                out.count("skipped_rounding_sensitive_step")  # iterate within ulps of a bound, not on it: discrete decisions at their thresholds
+                continue
             if not (e <= XT) or rs.result.nit != want.result.nit:
                 out.violate("recovery_differs_from_uninterrupted_run", f"{name}: crash at objective call {c} (callback #{j} kept, nit={k}); restart from the retained "
                             f"state gives iterate {rs.result.nit} = {np.asarray(rs.result.x).tolist()} but the uninterrupted run has iterate "
